@@ -2,7 +2,7 @@
 """Re-run every check on every seeded change (scratch copies) and refresh meta.json (detected_by / undecided_by / missed_by)."""
 import glob, json, os, shutil, subprocess, sys, tempfile
 from concurrent.futures import ThreadPoolExecutor
-ALL = ['C02','C03','C04','C05','C06','C07','C08','C09','C10','C11','C12','C13','C14','C15','C16','C17','C18','C19','C20']
+ALL = ['C01','C02','C03','C04','C05','C06','C07','C08','C09','C10','C11','C12','C13','C14','C15','C16','C17','C18','C19','C20']
 dirs = sorted(d for d in glob.glob('/verif/seeded/*') if os.path.exists(d + '/patch.diff'))
 only = [a for a in sys.argv[1:] if not a.startswith('--props=')]
 PROPS = [a[len('--props='):].split(',') for a in sys.argv[1:] if a.startswith('--props=')]
